@@ -54,7 +54,20 @@ def dblookup(shape):
         saved = (mpmod.read_tx, mpmod.run_in_thread, mpmod.sleep, dbmod.run_in_thread)
         mpmod.read_tx = lambda raw, cursor: (raws[bytes(raw)], 100)
         mpmod.run_in_thread = inline
-        dbmod.run_in_thread = inline
+        db_jobs = []
+        spent_by_block = []
+
+        async def db_inline(f, *a):
+            db_jobs.append(getattr(f, '__name__', '?'))
+            if shape.get('flush_between') and len(db_jobs) == 2:
+                # a block (spending a solver-chosen live output, possibly the target) is indexed and flushed
+                # between the two passes of lookup_utxos (script hash from the 'h' table, value from the 'u' table)
+                blk = sim.gen_block({'cb': 'B', 'txs': [{'ins': 1, 'outs': 'A'}]}, 'bx')
+                sim.advance(blk)
+                await sim.bp.flush(True)
+                spent_by_block.extend(o for tx in blk.txs for o in tx.ins)
+            return f(*a)
+        dbmod.run_in_thread = db_inline
 
         class Stop(Exception):
             pass
@@ -76,8 +89,11 @@ def dblookup(shape):
             mpmod.read_tx, mpmod.run_in_thread, mpmod.sleep, dbmod.run_in_thread = saved
         eng.prove(hG not in mp.txs, 'a transaction spending an outpoint that is not in the index was recorded',
                   {'signature': 'ghost-accepted'})
-        eng.prove(hA in mp.txs, 'a transaction spending an existing output was not recorded',
-                  {'signature': 'valid-dropped'})
+        if shape.get('flush_between'):
+            eng.prove(len(db_jobs) >= 2, 'harness: lookup_utxos no longer runs two jobs', {'signature': 'harness-two-pass'})
+        if not any(o is target for o in spent_by_block):
+            eng.prove(hA in mp.txs, 'a transaction spending an existing output was not recorded',
+                      {'signature': 'valid-dropped'})
         if hA in mp.txs:
             pairs = mp.txs[hA].in_pairs
             eng.prove(len(pairs) == 1 and z3_and([deep_eq(pairs[0][0], target.hashX), deep_eq(pairs[0][1], target.value)]),
@@ -88,14 +104,15 @@ def dblookup(shape):
 
 
 KERNEL = (
-    Kernel('DBLOOKUP', dblookup, lambda tier: [{'outs': 'AC'}, {'outs': 'AC', 'live_collide': True}] + ([{'outs': 'SA'}, {'outs': 'SA', 'live_collide': True}] if tier == 'thorough' else []),
+    Kernel('DBLOOKUP', dblookup, lambda tier: [{'outs': 'AC'}, {'outs': 'AC', 'live_collide': True}, {'outs': 'AC', 'flush_between': True}] + ([{'outs': 'SA'}, {'outs': 'SA', 'live_collide': True}] if tier == 'thorough' else []),
            desc='mempool refresh against the real DB.lookup_utxos with a missing outpoint free to collide on prefix+index',
            encodes=['electrumx/server/db.py:DB.lookup_utxos', 'electrumx/server/mempool.py:MemPool._fetch_and_accept',
                     '_accept_transactions', '_process_mempool'],
            bounds='2-block flushed symbolic chain (tx-hash prefixes, values symbolic), one mempool transaction spending '
                   'any live output (solver-enumerated), one spending an absent outpoint whose hash may share the 4-byte '
                   'prefix with either chain transaction, index 0 or 1, both delivery orders; second shape: 3 blocks with '
-                  'two LIVE outputs free to share prefix and index',
+                  'two LIVE outputs free to share prefix and index; third shape: a block spending a solver-chosen live '
+                  'output is indexed and flushed between the two passes of lookup_utxos',
            outside='more transactions; symbolic mempool transaction hashes (they travel as hex strings)',
            assumptions=['LevelDB modelled by MemStore', 'the absent outpoint differs from every indexed outpoint'],
            witnesses=1, prescribe=('sha256',)))
